@@ -12,3 +12,13 @@ open Golem.Props.C18
 #print axioms printed_sorted_of_inv
 #print axioms printed_sorted
 #print axioms printed_keys_live
+#print axioms get_put_same
+#print axioms get_put_other
+#print axioms get_remove_same
+#print axioms get_remove_other
+#print axioms put_put_overwrites
+#print axioms lookup_congr
+#print axioms get_congr
+#print axioms remove_absent
+#print axioms reachable_map_laws
+#print axioms demo_ok
